@@ -201,6 +201,27 @@ def run(tier, t0):
     res.rule('C15.3b', len(disp))
     if not any('SERIALIZATION_CONTEXT' in show(g.expand(g.call_tree(t))) for g in disp for b, t in g.calls()):
         res.violation('C15.3b', 'C15.3b|reader', None, None, 'Address::fmt does not read SERIALIZATION_CONTEXT', file='minidump-processor/src/process_state.rs')
+    # ---- C15.6 every JSON array mirrors the whole collection it reports: it is collect(map(<iteration over the
+    #      collection>, closure)), optionally with enumerate(); no adapter that drops, truncates or reorders items
+    res.rule('C15.6', 0, floor=10, note='JSON arrays are maps over whole collections: no take / skip / filter / step_by / rev / chain in the chains that build them')
+    DROPPING = ('take', 'skip', 'filter', 'filter_map', 'step_by', 'take_while', 'skip_while', 'map_while', 'rev', 'chain', 'flat_map', 'flatten', 'scan', 'dedup', 'cycle', 'zip', 'last', 'nth')
+    for g in c.fns:
+        if not g.qual.startswith(PJ):
+            continue
+        for b, t in g.calls():
+            if not ((g.callee_decl(t) or '').endswith('Iterator::collect') or (g.callee(t) or '').endswith('Iterator::collect')):
+                continue
+            if (t.get('rty') or '') not in ('std::vec::Vec<serde_json::Value>', 'std::vec::Vec<std::string::String>'):
+                continue
+            res.rule('C15.6', 1)
+            e = show(g.expand(g.call_tree(t)))
+            chain = re.sub(r'\(closure [^)]*\)', '(closure)', e)
+            bad = [a for a in DROPPING if re.search(r'Iterator::%s\b' % a, chain)]
+            if bad:
+                res.violation('C15.6', 'C15.6|%s|%s' % (panics.anon_closures(g.qual[len(PJ):]) or 'body', bad[0]), g, t.get('line'),
+                              'a JSON array is built through %s(): it no longer mirrors the collection it reports (and the count fields next to it are computed from the full collection): %s' % (bad[0], chain[:200]))
+            elif not re.match(r'^\(std::iter::Iterator::collect \(std::iter::Iterator::map ', chain):
+                res.violation('C15.6', 'C15.6|%s|shape' % (panics.anon_closures(g.qual[len(PJ):]) or 'body'), g, t.get('line'), 'a JSON array is not collect(map(<collection iterator>, closure)): %s' % chain[:200])
     # ---- C15.4 redundant fields
     res.rule('C15.4', 0, floor=6, note='redundant fields are computed from what they duplicate')
     def leaf(p):
